@@ -33,7 +33,8 @@ One forward, flow-sensitive pass `Normalizer.block` does, statement by statement
     tuple / list / dict / set of literals) is replaced by the literal; likewise `self.NAME` / `cls.NAME` / `Cls.NAME`
     with exactly one class-level assignment to a literal and no store to it anywhere in the class.
 (h) docstrings, `pass`, annotations without value, logging calls are dropped; annotated assignments become plain ones.
-(i) `if c: T = a else: T = b` == `T = a if c else b` (same single target).
+(i) `if c: self.f = a else: self.f = b` == `self.f = a if c else b`; `dict(a=x, b=y)` == `{"a": x, "b": y}`; a bare
+    `return` at the very end of the function is dropped.
 """
 from __future__ import annotations
 
@@ -208,6 +209,19 @@ class _Rename(ast.NodeTransformer):
         return self.generic_visit(node)
 
 
+def _trivial(v) -> bool:
+    """names, constants and literal containers of them: evaluating it reads no object state and cannot fail"""
+    if isinstance(v, (ast.Name, ast.Constant)):
+        return True
+    if isinstance(v, ast.UnaryOp) and isinstance(v.operand, ast.Constant):
+        return True
+    if isinstance(v, (ast.Tuple, ast.List, ast.Set)):
+        return all(_trivial(e) for e in v.elts)
+    if isinstance(v, ast.Dict):
+        return all(k is not None and _trivial(k) and _trivial(x) for k, x in zip(v.keys, v.values))
+    return False
+
+
 def _is_self_attr(node) -> bool:
     return isinstance(node, ast.Attribute) and isinstance(node.value, ast.Name) and node.value.id == "self"
 
@@ -256,13 +270,27 @@ class ModuleCtx:
             for nm in stores_of(st) if not isinstance(st, (ast.FunctionDef, ast.ClassDef)) else [st.name]:
                 assigned[nm] = assigned.get(nm, 0) + 1
         globals_declared = {g for n in ast.walk(self.tree) if isinstance(n, ast.Global) for g in n.names}
+        touched = set()                 # names that may be mutated in place somewhere in the module
+        for n in ast.walk(self.tree):
+            if isinstance(n, ast.Call) and isinstance(n.func, ast.Attribute) and isinstance(n.func.value, ast.Name) \
+                    and n.func.attr not in READONLY_METHODS:
+                touched.add(n.func.value.id)
+            elif isinstance(n, (ast.Subscript, ast.Attribute)) and isinstance(n.ctx, (ast.Store, ast.Del)):
+                b = n.value
+                while isinstance(b, (ast.Subscript, ast.Attribute)):
+                    b = b.value
+                if isinstance(b, ast.Name):
+                    touched.add(b.id)
+            elif isinstance(n, ast.AugAssign) and isinstance(n.target, ast.Name):
+                touched.add(n.target.id)
         for st in self.tree.body:
             tgt = val = None
             if isinstance(st, ast.Assign) and len(st.targets) == 1 and isinstance(st.targets[0], ast.Name):
                 tgt, val = st.targets[0].id, st.value
             elif isinstance(st, ast.AnnAssign) and isinstance(st.target, ast.Name) and st.value is not None:
                 tgt, val = st.target.id, st.value
-            if tgt and assigned.get(tgt) == 1 and tgt not in globals_declared and is_literal(val):
+            if tgt and assigned.get(tgt) == 1 and tgt not in globals_declared and is_literal(val) \
+                    and not (tgt in touched and any(is_container(m) for m in ast.walk(val))):
                 self.consts[tgt] = val
 
     def _module_path(self, st: ast.ImportFrom):
@@ -376,6 +404,8 @@ class Normalizer:
             self.mutated = self._mutated_names(body)
             body = self.block(body, {}, depth=0)
             body = self.drop_dead(body)
+            if body and isinstance(body[-1], ast.Return) and body[-1].value is None:
+                body = body[:-1]                  # a bare `return` at the very end
         except RecursionError:
             return fn
         fn.body = body or [ast.Pass()]
@@ -474,6 +504,12 @@ class Normalizer:
             return True
         return False
 
+    def _pure_call(self, n: ast.Call) -> bool:
+        f = n.func
+        return (isinstance(f, ast.Name) and f.id in PURE_BUILTINS) or text(f) in PURE_DOTTED \
+            or (isinstance(f, ast.Attribute) and f.attr in READONLY_METHODS) \
+            or (isinstance(f, ast.Name) and f.id[:1].isupper() and f.id.endswith(("Error", "Exception", "Warning")))
+
     # -------------------------------------------------------------------------------- the forward pass
     def kill(self, env: dict, st):
         """forget aliases whose expression reads something `st` binds or stores to"""
@@ -484,6 +520,11 @@ class Normalizer:
                 attrs.add(text(n))
                 b = n.value
                 attrs.add(text(b))
+        impure = any(isinstance(n, ast.Call) and not self._pure_call(n) for n in ast.walk(st))
+        if impure:                       # an unknown call may change any object: aliases of attributes / items are stale
+            for k in list(env):
+                if any(isinstance(m, (ast.Attribute, ast.Subscript)) for m in ast.walk(env[k])):
+                    del env[k]
         if not names and not attrs:
             return
         for k in list(env):
@@ -505,7 +546,14 @@ class Normalizer:
         """(c) guard-clause normal form, (h) drops, (i) conditional assignment"""
         out = []
         elif_pos = elif_pos and len(stmts) == 1
-        for st in stmts:
+        for pos, st in enumerate(stmts):
+            # (c) `if ok: A; return` followed by statements that end in raise == `if not ok: <those>` followed by A; return
+            if (isinstance(st, ast.If) and not st.orelse and st.body and isinstance(st.body[-1], ast.Return)
+                    and not has_node(st.body[:-1], (ast.Return,)) and stmts[pos + 1:]
+                    and isinstance(stmts[pos + 1:][-1], ast.Raise) and not has_node(stmts[pos + 1:], (ast.Return, ast.If))):
+                out.append(ast.If(test=negate(st.test), body=self.flatten(stmts[pos + 1:]), orelse=[]))
+                out.extend(self.flatten(st.body))
+                return out
             if isinstance(st, ast.Pass):
                 continue
             if isinstance(st, ast.AnnAssign) and st.value is None:
@@ -617,12 +665,17 @@ class Normalizer:
                 for s in unrolled:
                     res += self.statement(s, env, depth, acc)
                 return res
+            for nm in stores_of(st):
+                acc.pop(nm, None)
             self._kill_all_stores(env, st)
             inner = dict(env)
             st.body = self.block(st.body, inner, depth)
             st.orelse = self.block(st.orelse, dict(env), depth)
             self._kill_all_stores(env, st)
             return [st]
+        if isinstance(st, (ast.While, ast.If, ast.Try, ast.With)):
+            for nm in stores_of(st):
+                acc.pop(nm, None)
         if isinstance(st, ast.While):
             self._kill_all_stores(env, st)
             st.test = self.expr(st.test, env, depth)
@@ -730,6 +783,15 @@ class Normalizer:
 
     def simplify(self, e):
         class T(ast.NodeTransformer):
+            def visit_Call(self, node):
+                self.generic_visit(node)
+                if (isinstance(node.func, ast.Name) and node.func.id == "dict" and not node.args
+                        and all(k.arg is not None for k in node.keywords)):
+                    # dict(a=x, b=y) == {"a": x, "b": y}
+                    return ast.Dict(keys=[ast.Constant(value=k.arg) for k in node.keywords],
+                                    values=[k.value for k in node.keywords])
+                return node
+
             def visit_UnaryOp(self, node):
                 self.generic_visit(node)
                 if isinstance(node.op, ast.Not):
@@ -755,10 +817,8 @@ class Normalizer:
             test = self.pattern_test(case.pattern, subj, binds)
             body = list(case.body)
             if binds:
-                body = [subst(s, binds) for s in body]
-                for s in body:
-                    if set(stores_of(s)) & set(binds):
-                        raise _No("captured name is re-bound")
+                body = [ast.Assign(targets=[ast.Name(id=nm, ctx=ast.Store())], value=copy.deepcopy(v), lineno=st.lineno)
+                        for nm, v in binds.items()] + body
             guard = subst(case.guard, binds) if case.guard is not None else None
             if guard is not None:
                 test = guard if test is None else ast.BoolOp(op=ast.And(), values=[test, guard])
@@ -860,6 +920,14 @@ class Normalizer:
         inner_stores = [n for s in st.body for n in stores_of(s)]
         if set(tnames) & set(inner_stores):
             raise _No("loop variable re-bound in the body")
+        reads = {m.id for e in items for m in ast.walk(e) if isinstance(m, ast.Name)}
+        if reads & set(inner_stores):
+            raise _No("the body re-binds what the elements read")
+        if any(isinstance(m, (ast.Attribute, ast.Subscript)) for e in items for m in ast.walk(e)) and any(
+                (isinstance(n, ast.Call) and not self._pure_call(n))
+                or (isinstance(n, (ast.Attribute, ast.Subscript)) and isinstance(n.ctx, (ast.Store, ast.Del)))
+                for b in st.body for n in ast.walk(b)):
+            raise _No("the elements read object state that the body may change")
         out = []
         for it in items:
             mapping = self.bind_target(st.target, it)
@@ -1067,9 +1135,9 @@ class Normalizer:
                     uses[n.id] = uses.get(n.id, 0) + 1
         for p, v in bound.items():
             rebinds = p in h_stores
-            simple = isinstance(v, (ast.Name, ast.Constant)) or attr_chain(v) is not None \
+            simple = isinstance(v, (ast.Name, ast.Constant)) \
                 or (isinstance(v, ast.UnaryOp) and isinstance(v.operand, ast.Constant))
-            once_literal = self.pure(v) and uses.get(p, 0) <= 1 and not rebinds
+            once_literal = _trivial(v) and uses.get(p, 0) <= 1 and not rebinds
             if (simple or once_literal) and not rebinds:
                 direct[p] = v
             else:
@@ -1183,5 +1251,5 @@ def normalize(repo: Path, rel: str, tree: ast.Module, fn: ast.FunctionDef, cls: 
     """the function, normalised; on any internal error the function is returned unchanged (fail closed downstream)"""
     try:
         return Normalizer(repo, rel, tree, cls, atoms).function(fn)
-    except _No:
+    except Exception:                    # _No included: the recognisers see the code as written
         return fn
